@@ -72,7 +72,7 @@ func VH_C20_ListAccept() {
 	if err != nil {
 		return
 	}
-	n := vnondetLen("nutxos", 2, vparam("U", 2))
+	n := vnondetLen("nutxos", vparam("UMIN", 2), vparam("U", 2)) // UMIN=4: more inputs than outputs
 	var utxos []*bt.UTXO
 	for i := 0; i < n; i++ {
 		utxos = append(utxos, vutxo("fund", buyerLock, buyerU, 0, 2000000000))
